@@ -663,16 +663,29 @@ PPL::Polyhedron::contains_integer_point() const {
         PPL_ASSERT(c.is_inconsistent());
         return false;
       }
+      // Extract the homogeneous part of the constraint and normalize it
+      // (the division is exact).
       Linear_Expression le(c.expression());
+      le -= inhomogeneous;
       if (homogeneous_gcd != 1) {
         le /= homogeneous_gcd;
       }
-      // Further tighten the constraint if the inhomogeneous term
-      // was integer, i.e., if `homogeneous_gcd' divides `inhomogeneous'.
+      // Tighten the normalized inhomogeneous term b: on integer points,
+      // `le + b > 0' is equivalent to `le + b - 1 >= 0' if b is integer
+      // (i.e., if `homogeneous_gcd' divides `inhomogeneous') and
+      // to `le + floor(b) >= 0' otherwise.
+      assign_r(rational_inhomogeneous.get_num(),
+               inhomogeneous, ROUND_NOT_NEEDED);
+      assign_r(rational_inhomogeneous.get_den(),
+               homogeneous_gcd, ROUND_NOT_NEEDED);
+      rational_inhomogeneous.canonicalize();
+      assign_r(tightened_inhomogeneous,
+               rational_inhomogeneous, ROUND_DOWN);
       gcd_assign(gcd, homogeneous_gcd, inhomogeneous);
       if (gcd == homogeneous_gcd) {
-        le -= 1;
+        tightened_inhomogeneous -= 1;
       }
+      le += tightened_inhomogeneous;
       mip.add_constraint(le >= 0);
     }
     else {
